@@ -80,11 +80,18 @@ Fixpoint diffs (prev : num) (l : list num) : list num :=
 Definition fuel_burn (fm : list num) : list num :=
   match fm with [] => [] | x :: r => zero :: diffs x r end.
 
-(* trajectory.py:_trajectory_slice (0 <= n_climb, 0 <= n_descent <= n assumed, see design.d/C01.md) *)
-Definition win_start (c : config) (n_climb : nat) : nat :=
-  match cd c with CD_TRAJECTORY => 0%nat | CD_LTO => n_climb end.
-Definition win_stop (c : config) (n n_descent : nat) : nat :=
-  match cd c with CD_TRAJECTORY => n | CD_LTO => (n - n_descent)%nat end.
+(* Python / numpy slice-bound normalisation for a sequence of length n: a negative bound counts from the end,
+   everything is clamped to [0, n].  `arr[:k] = 0` clears [0, norm k); `arr[k:] = 0` clears [norm k, n);
+   `arr[a:b]` is [norm a, norm b) (empty when norm b <= norm a). *)
+Definition norm_bound (n : nat) (k : Z) : nat :=
+  if (k <? 0)%Z then Z.to_nat (Z.max 0 (Z.of_nat n + k)) else Nat.min (Z.to_nat k) n.
+(* trajectory.py:_trajectory_slice: slice(traj.n_climb, len(traj) - traj.n_descent) under lto accounting, for ANY
+   integer phase counts (the builders only produce 0 <= counts with sum <= len; hand-made / stored trajectories
+   can carry anything) *)
+Definition win_start (c : config) (n : nat) (n_climb : Z) : nat :=
+  match cd c with CD_TRAJECTORY => 0%nat | CD_LTO => norm_bound n n_climb end.
+Definition win_stop (c : config) (n : nat) (n_descent : Z) : nat :=
+  match cd c with CD_TRAJECTORY => n | CD_LTO => norm_bound n (Z.of_nat n - n_descent) end.
 Definition in_window (start stop i : nat) : bool := (start <=? i)%nat && (i <? stop)%nat.
 (* arr[:start] = 0; arr[stop:] = 0 *)
 Fixpoint zero_outside_from (i start stop : nat) (l : list num) : list num :=
@@ -98,6 +105,31 @@ Definition slice (start stop : nat) (l : list num) : list num := firstn (stop - 
 
 Fixpoint lookup {X} (s : species) (l : list (species * X)) : option X :=
   match l with [] => None | (k, v) :: r => if species_eqb s k then Some v else lookup s r end.
+
+(* ---- BFFM2 speciation along the trajectory (ei/nox.py:BFFM2_EINOx steps 3-5, utils.py:get_thrust_cat_cruise) ----
+   NOx itself (log-log fit, humidity correction) and the SLS-equivalent fuel flow are the EI method's (oracle);
+   how NO / NO2 / HONO are cut out of NOx is bookkeeping and is modelled. *)
+Inductive tmode := TM_IDLE | TM_APPROACH | TM_CLIMB | TM_TAKEOFF.
+Definition tm_get (m : tmode) (v : tmv) : num :=
+  match m with TM_IDLE => tm_idle v | TM_APPROACH => tm_approach v | TM_CLIMB => tm_climb v | TM_TAKEOFF => tm_takeoff v end.
+(* np.select([ff <= lowLimit, ff > approachLimit], [IDLE, CLIMB], default=APPROACH) *)
+Definition thrust_cat (ff_cal : tmv) (ff : num) : tmode :=
+  let low := (tm_idle ff_cal + tm_approach ff_cal) / lit 2 1 0x1p+1 in
+  let app := (tm_approach ff_cal + tm_climb ff_cal) / lit 2 1 0x1p+1 in
+  if ff <=? low then TM_IDLE else if app <? ff then TM_CLIMB else TM_APPROACH.
+Definition bffm2_part (ff_cal : tmv) (sp : tmv) (nx sls : list num) : list num :=
+  map2 mul nx (map (fun ff => tm_get (thrust_cat ff_cal ff) sp) sls).
+(* the per-point index arrays the trajectory component works with: the EI methods' arrays, plus NO / NO2 / HONO
+   derived from the NOx array *)
+Definition is_part (s : species) : bool := match s with NO | NO2 | HONO => true | _ => false end.
+Definition strip_parts (orc : list (species * list num)) : list (species * list num) :=
+  filter (fun p => negb (is_part (fst p))) orc.
+Definition aug_orc (ff_cal : tmv) (sls : list num) (orc : list (species * list num)) : list (species * list num) :=
+  match lookup NOx orc with
+  | Some nx => (NO, bffm2_part ff_cal sp_no nx sls) :: (NO2, bffm2_part ff_cal sp_no2 nx sls)
+               :: (HONO, bffm2_part ff_cal sp_hono nx sls) :: strip_parts orc
+  | None => strip_parts orc
+  end.
 
 (* ---- trajectory component ---- *)
 Definition const_value (f : fuel) (s : species) : num :=
@@ -119,12 +151,12 @@ Definition traj_em_raw (c : config) (f : fuel) (fm : list num) (orc : list (spec
   : option (list num) :=
   option_map (fun idx => map2 mul idx (fuel_burn fm)) (traj_idx_raw c f (length fm) orc s).
 
-Definition traj_idx c f (fm : list num) (ncl nde : nat) orc (s : species) : option (list num) :=
-  option_map (zero_outside (win_start c ncl) (win_stop c (length fm) nde)) (traj_idx_raw c f (length fm) orc s).
-Definition traj_em c f (fm : list num) (ncl nde : nat) orc (s : species) : option (list num) :=
-  option_map (zero_outside (win_start c ncl) (win_stop c (length fm) nde)) (traj_em_raw c f fm orc s).
-Definition traj_fuel c (fm : list num) (ncl nde : nat) : num :=
-  nsum (slice (win_start c ncl) (win_stop c (length fm) nde) (fuel_burn fm)).
+Definition traj_idx c f (fm : list num) (ncl nde : Z) orc (s : species) : option (list num) :=
+  option_map (zero_outside (win_start c (length fm) ncl) (win_stop c (length fm) nde)) (traj_idx_raw c f (length fm) orc s).
+Definition traj_em c f (fm : list num) (ncl nde : Z) orc (s : species) : option (list num) :=
+  option_map (zero_outside (win_start c (length fm) ncl) (win_stop c (length fm) nde)) (traj_em_raw c f fm orc s).
+Definition traj_fuel c (fm : list num) (ncl nde : Z) : num :=
+  nsum (slice (win_start c (length fm) ncl) (win_stop c (length fm) nde) (fuel_burn fm)).
 
 (* ---- LTO component ---- *)
 Definition lto_fuel (c : config) (l : lto_data) : tmv :=
@@ -237,13 +269,15 @@ Definition gse_em (f : fuel) (k : acclass) (s : species) : option num :=
 
 (* ---- whole inventory ---- *)
 Record inputs := mkInputs {
-  i_cfg : config; i_fuel : fuel; i_fm : list num; i_ncl : nat; i_nde : nat;
-  i_orc_traj : list (species * list num);
+  i_cfg : config; i_fuel : fuel; i_fm : list num; i_ncl : Z; i_nde : Z;
+  i_orc_traj : list (species * list num);      (* EI-method arrays: NOx, HC, CO, PMvol, OCic, PMnvol, PMnvolGMD, PMnvolN *)
+  i_sls : list num;                            (* SLS-equivalent fuel flow per point (EI method, FFM2 Eq. 40) *)
   i_lto : lto_data; i_orc_lto : list (species * tmv);
   i_apu : option apu_data; i_class : acclass }.
 
-Definition I_traj_idx (x : inputs) := traj_idx (i_cfg x) (i_fuel x) (i_fm x) (i_ncl x) (i_nde x) (i_orc_traj x).
-Definition I_traj_em (x : inputs) := traj_em (i_cfg x) (i_fuel x) (i_fm x) (i_ncl x) (i_nde x) (i_orc_traj x).
+Definition I_orc (x : inputs) := aug_orc (l_ff (i_lto x)) (i_sls x) (i_orc_traj x).
+Definition I_traj_idx (x : inputs) := traj_idx (i_cfg x) (i_fuel x) (i_fm x) (i_ncl x) (i_nde x) (I_orc x).
+Definition I_traj_em (x : inputs) := traj_em (i_cfg x) (i_fuel x) (i_fm x) (i_ncl x) (i_nde x) (I_orc x).
 Definition I_traj_fuel (x : inputs) := traj_fuel (i_cfg x) (i_fm x) (i_ncl x) (i_nde x).
 Definition I_lto_idx (x : inputs) := lto_idx (i_cfg x) (i_fuel x) (i_lto x) (i_orc_lto x).
 Definition I_lto_em (x : inputs) := lto_em (i_cfg x) (i_fuel x) (i_lto x) (i_orc_lto x).
